@@ -25,7 +25,8 @@ def run(ck: Check) -> None:
     batch = signable_batch(ck, n)
     cases = []
     for case, want, c in batch:
-        case.enc = rng.choice(["ascii", "ascii", "utf-8", "utf-8", "utf-8", "utf-8+Werror", "ascii+Werror"])
+        # "broken:none" = a process without a standard output object (sys.stdout is None: daemons, pythonw, fd 1 closed at start-up); print() is a no-op there
+        case.enc = rng.choice(["ascii", "ascii", "utf-8", "utf-8", "utf-8", "utf-8+Werror", "ascii+Werror", "broken:none"])
         cases.append(case)
     res = ck.run_cases(cases, "corr:verify_signable/outcome-class")
     for (case, want, c), r in zip(batch, res):
